@@ -109,62 +109,43 @@ func emitOneRegex(b *strings.Builder, lean, pattern string) {
 	fmt.Fprintf(b, "/-- `%s` -/\ndef %s : Snowflake.Rx := %s\n\n", strings.ReplaceAll(pattern, "-/", "- /"), lean, term)
 }
 
-func emitRegex() string {
-	var b strings.Builder
-	b.WriteString("import Snowflake.Base.Rx\n/- GENERATED by /verif/extract from the repository working tree. Do not edit. -/\nset_option maxRecDepth 100000\nnamespace Snowflake.Gen.Regex\nopen Snowflake.Rx\n\n")
-	ps := loadPkg("common/safelog")
-	for _, n := range []string{"addressPattern", "fullAddrPattern"} {
-		e, ok := ps.vals[n]
-		if !ok {
-			fmt.Fprintf(&b, "theorem translator_unsupported_safelog_%s : False := by trivial\n\n", n)
-			continue
-		}
-		v := ps.eval(e, 0)
+// emitRegexSpec emits the regex named by the spec: either a string constant (idx < 0) or the idx-th
+// regexp.MustCompile argument inside a package-level var initialiser.
+func emitRegexSpec(b *strings.Builder, rs regexSpec) {
+	p := loadPkg(rs.dir)
+	e, ok := p.vals[rs.name]
+	if !ok {
+		fmt.Fprintf(b, "theorem translator_unsupported_%s : False := by trivial\n\n", rs.lean)
+		return
+	}
+	if rs.idx < 0 {
+		v := p.eval(e, 0)
 		if !v.ok || !v.isStr {
-			fmt.Fprintf(&b, "theorem translator_unsupported_safelog_%s : False := by trivial\n\n", n)
-			continue
+			fmt.Fprintf(b, "theorem translator_unsupported_%s : False := by trivial\n\n", rs.lean)
+			return
 		}
-		emitOneRegex(&b, "safelog_"+n, v.s)
+		emitOneRegex(b, rs.lean, v.s)
+		return
 	}
-	// which pattern variables the scrubber actually compiles
-	for _, vn := range []string{"scrubberPatterns", "addressRegexp"} {
-		args := []string{}
-		if e, ok := ps.vals[vn]; ok {
-			ast.Inspect(e, func(n ast.Node) bool {
-				if c, ok := n.(*ast.CallExpr); ok {
-					if s, ok := c.Fun.(*ast.SelectorExpr); ok && s.Sel.Name == "MustCompile" && len(c.Args) == 1 {
-						args = append(args, exprStr(ps.fset, c.Args[0]))
-					}
-				}
-				return true
-			})
-		}
-		var q []string
-		for _, a := range args {
-			q = append(q, leanStr(a))
-		}
-		fmt.Fprintf(&b, "/-- arguments of regexp.MustCompile in `safelog.%s` -/\ndef safelog_%s_args : List String := [%s]\n\n", vn, vn, strings.Join(q, ", "))
-	}
-	// proxy remoteIPPatterns
-	pp := loadPkg("proxy/lib")
-	if e, ok := pp.vals["remoteIPPatterns"]; ok {
-		i := 0
-		ast.Inspect(e, func(n ast.Node) bool {
-			if c, ok := n.(*ast.CallExpr); ok {
-				if s, ok := c.Fun.(*ast.SelectorExpr); ok && s.Sel.Name == "MustCompile" && len(c.Args) == 1 {
-					v := pp.eval(c.Args[0], 0)
-					if v.ok && v.isStr {
-						emitOneRegex(&b, fmt.Sprintf("proxy_remoteIPPattern%d", i), v.s)
-					} else {
-						fmt.Fprintf(&b, "theorem translator_unsupported_proxy_remoteIPPattern%d : False := by trivial\n\n", i)
-					}
-					i++
-				}
+	var args []ast.Expr
+	ast.Inspect(e, func(n ast.Node) bool {
+		if c, ok := n.(*ast.CallExpr); ok {
+			if s, ok := c.Fun.(*ast.SelectorExpr); ok && s.Sel.Name == "MustCompile" && len(c.Args) == 1 {
+				args = append(args, c.Args[0])
 			}
-			return true
-		})
-		fmt.Fprintf(&b, "def proxy_remoteIPPatterns_count : Nat := %d\n\n", i)
+		}
+		return true
+	})
+	fmt.Fprintf(b, "/-- number of regexp.MustCompile calls in `%s.%s` -/\ndef %s_count : Nat := %d\n\n", rs.dir, rs.name, rs.lean, len(args))
+	if rs.idx >= len(args) {
+		fmt.Fprintf(b, "theorem translator_unsupported_%s : False := by trivial\n\n", rs.lean)
+		return
 	}
-	b.WriteString("end Snowflake.Gen.Regex\n")
-	return b.String()
+	v := p.eval(args[rs.idx], 0)
+	if !v.ok || !v.isStr {
+		fmt.Fprintf(b, "theorem translator_unsupported_%s : False := by trivial\n\n", rs.lean)
+		return
+	}
+	fmt.Fprintf(b, "/-- source expression: `%s` -/\ndef %s_src : String := %s\n\n", exprStr(p.fset, args[rs.idx]), rs.lean, leanStr(exprStr(p.fset, args[rs.idx])))
+	emitOneRegex(b, rs.lean, v.s)
 }
